@@ -6,7 +6,25 @@ TB_COMMON = [
     "the hand-written Gallina model is tied to /repo by differential evaluation on generated inputs (correspondence), not by proof",
 ]
 
+TB_VALUE = TB_COMMON + [
+    "math/big.Float is modelled bit-exactly (Model/BigFloat.v, go1.23.5) and validated by the correspondence, not verified",
+    "verif hooks in /repo (cty/verif_hooks.go, cty/set/verif_hooks.go): read-only views of refinements, number identity, set buckets",
+    "string quoting (%q) is modelled for ASCII + printable UTF-8 only; strings outside that domain are not generated",
+]
+
 PROPS = {
+    "C02": {
+        "n_quick": 220, "n_thorough": 12000,
+        "check_fn": "kops_check",
+        "rule": "number pairs from a pool (singletons, int64/uint64 limits, float64-derived, 512-bit parsed, odd precisions, fresh infinities; "
+                "thorough: full pool cross product) x 11 binary + 2 unary ops; booleans exhaustively; collections of 11 fixed + generated types x keys in and "
+                "out of range (n-1, n, n+1, -1, fractions, wrong type); big.Float text/parse family.  Non-trivial = every case (operands are never both trivial "
+                "duplicates: distinctness counted on the Gallina term)",
+        "trusted_base": TB_VALUE,
+        "assumptions": ["capsule operations are outside the model (identity only)"],
+        "partial": ["correct rounding w.r.t. exact rationals is proved only in the no-rounding case (C02_add_exact_partial); the general half-ulp bound is "
+                    "checked on every generated case against math/big.Rat by the implementation-side oracle, not yet a theorem"],
+    },
     "C07": {
         "n_quick": 400, "n_thorough": 4000,
         "check_fn": "k07_check",
